@@ -8,8 +8,8 @@ CLAIMED = {
  "C12": ("exploration",
    "exhaustive enumeration + rapid PBT against a prefix-equality oracle (API with recording driver, and real CLI on SQLite)",
    "Every (file of <=5 statements, progress k, single edit, cosmetic variant) is enumerated and run through migrate.Executor with a recording driver and revision store; "
-   "random stacked edits with duplicate statements on top; the same space for <=3 statements is run through the real `atlas migrate apply --tx-mode none` on a SQLite file. "
-   "Oracle: applied-prefix texts unchanged => exactly the new tail runs; otherwise HistoryChangedError, zero statements executed, stored revision unchanged, no panic.",
+   "for every edit that leaves the applied prefix alone a second partial failure at every later index followed by a third run; random stacked edits with duplicate statements on top; the same space for <=3 statements is run through the real `atlas migrate apply --tx-mode none` on a SQLite file. "
+   "Oracle: applied-prefix texts unchanged => exactly the new tail runs (and after a second failure exactly the rest, never a false 'nothing pending'); otherwise HistoryChangedError, zero statements executed, stored revision unchanged, no panic.",
    "Statement texts are simple INSERTs so the scanner is not in question here (C08 covers it). The stored revision is compared on Applied/Total/PartialHashes/Error/ErrorStmt/Hash/Type; ExecutedAt/OperatorVersion are rewritten by design.",
    "4/C12"),
  "C09": ("fault_enumeration",
@@ -51,14 +51,14 @@ CLAIMED = {
    "The CLI's diff/apply path (RealmDiff+DiffNormalized, ApplyChanges in a transaction with the CLI's plan options) is replicated in-process. Checked: every planned statement executes; re-inspect+re-diff is empty; "
    "the harness' own catalog (pragma_table_xinfo/index_list/index_xinfo/foreign_key_list + tokenised CREATE text) of the live database equals that of the reference modulo the equivalences Atlas documents. "
    "A sample of pairs goes through `atlas schema apply --auto-approve` + `atlas schema diff` on database files with --to hcl / sql (dev-url) / url.",
-   "Tables are empty (data is C05). Type changes inside one Atlas type class, column order, quoting of defaults on columns with affinity, FK/check names are not demanded. Inline UNIQUE constraints are not generated here (see DESIGN section 5). Plan-time refusals are counted as rejected.",
+   "Tables are empty (data is C05). Type changes inside one Atlas type class, column order, quoting of defaults on columns with affinity, FK/check names are not demanded. Inline UNIQUE column constraints (SQLite's automatic indexes) are generated in their own sub-check (engine-pairs-inline-unique) since the two defects fixed in 6cf502f/da6a2d5. Plan-time refusals are counted as rejected.",
    "4/C01"),
  "C03": ("exploration",
    "rapid PBT closing the loop database -> export -> database on a real SQLite engine (round-trip oracle + independent PRAGMA catalog comparison), sample through the real CLI",
    "Databases are created on in-memory SQLite engines from the harness model by native DDL (inline constraints, double-quoted names), atlas-style DDL or Atlas itself. Checked: two inspections marshal to identical HCL bytes; "
    "EvalHCLBytes(MarshalHCL(inspect)) has an empty CLI-mode diff against the database in both directions; the dump-mode SQL export (replica of cmdlog.sqlInspect: PlanModeDump + DefaultFormatter), scanned with the SQLite statement scanner and executed on an empty engine, "
    "yields a database whose independent catalog equals the original and whose Atlas diffs are empty both ways. The CLI tier repeats the loop with `atlas schema inspect` (HCL and --format '{{ sql . }}') and `atlas schema diff` on database files.",
-   "Identifiers outside \\w+ are generated in a separate sub-check because of the known finding C03/nonword-identifier-recovery. Inline UNIQUE constraints are not generated (DESIGN section 5). Re-marshal byte equality belongs to C15 and is not demanded here.",
+   "Identifiers outside \\w+ are generated in a separate sub-check because of the known finding C03/nonword-identifier-recovery. Inline UNIQUE column constraints are generated in their own sub-check (engine-inline-unique). Re-marshal byte equality belongs to C15 and is not demanded here.",
    "4/C03"),
  "C05": ("exploration",
    "rapid PBT with generated rows on a real SQLite engine; before/after row comparison keyed by an untouched key column (invariant over the plan's effect on data)",
@@ -78,15 +78,15 @@ CLAIMED = {
    "rapid PBT: up-then-down execution on a real SQLite engine (inverse/round-trip oracle with independent catalog comparison) + formatter down-section consistency against Plan.Changes[].ReverseStmts()",
    "SQLite (current, desired) pairs biased to reversible plans are planned; when Plan.Reversible the statements are executed and then the reverse statements of the changes in reverse order; the harness' PRAGMA catalog before must equal after and Atlas' diff original<->result must be empty both ways. "
    "For every plan: Reversible implies every change with a schema Source has a reverse statement. Down-file part: the same plans (indent '', two spaces, tab) are written with golang-migrate, goose, flyway, dbmate and liquibase formatters and the down section / rollback lines, "
-   "scanned with the statement scanner, must be exactly the reverse statements in (reverse) change order.",
-   "Engine execution is SQLite only. The down-file part currently uses SQLite plans; MySQL/PostgreSQL plans share the same formatter code path (dialect-independent templates). PRAGMA foreign_keys bookkeeping statements carry no reverse by design and are skipped on the way down.",
+   "scanned with the statement scanner, must be exactly the reverse statements in (reverse) change order; the same for MySQL and PostgreSQL plans built from the multi-dialect model. A separate sub-check runs up-then-down on schemas with inline UNIQUE constraints (automatic indexes).",
+   "Engine execution is SQLite only; MySQL/PostgreSQL reverse statements are compared with the down files but never executed (no server offline). PRAGMA foreign_keys bookkeeping statements carry no reverse by design and are skipped on the way down.",
    "4/C17"),
  "C02": ("exploration",
    "exhaustive single-edit enumeration + rapid PBT over non-interfering edit sets; metamorphic oracle: reported change set == union of expected change descriptors as a multiset; null relations under copy and permutation",
    "For MySQL, PostgreSQL and SQLite differs (DefaultDiff, DiffNormalized as the CLI uses) a base schema model is built twice into independent linked schema graphs; the second build carries a set of catalogue edits "
    "(add/drop table, column, index, PK, FK, check, enum; modify column null/type/default/comment/generated; modify index unique/parts(desc, column, added part, prefix)/attr(type, predicate, include)/comment; modify PK parts; "
    "modify FK column/ref column/ref table/on update/on delete; modify named check; table comment/engine/auto_increment/WITHOUT ROWID/STRICT). Each edit carries its expected descriptor; the flattened result of SchemaDiff / RealmDiff / TableDiff must equal "
-   "the expected multiset exactly. Every catalogue edit at every applicable site is enumerated (3 levels x declared/permuted order); random sets of 0-8 non-interfering edits with random base reductions and declaration-order permutations on top.",
+   "the expected multiset exactly. Every catalogue edit at every applicable site is enumerated (3 levels x declared/permuted order); every pair of edits of different aspects of the SAME object (expected: one Modify* carrying the union of the change bits) is enumerated too; random sets of 0-8 non-interfering edits with random base reductions and declaration-order permutations on top.",
    "Expectations follow the differs' documented normal forms (NO ACTION == RESTRICT == '' in MySQL, SQLite type classes, MayWrap); the catalogue never uses an edit whose before/after are equivalent under them. Charset/collation edits are not generated (DefaultDiff needs a live server to resolve defaults). "
    "PostgreSQL generated-expression changes are refused by the differ by design and are not in its catalogue.",
    "4/C02"),
@@ -122,14 +122,14 @@ CLAIMED = {
  "C14": ("exploration",
    "enumeration of (command x dev-database kind x directory/schema shape x failing-statement position) + rapid PBT on the real CLI; oracle = before/after equality of an independent full dump of the dev database and of the directory's file hashes",
    "Every command that takes --dev-url (migrate diff, migrate validate, migrate lint, schema apply --to file://*.sql, schema diff between SQL files) is run against SQLite dev databases that are empty, hold tables+rows, hold only a view, hold a table with a trigger, or are in-memory, "
-   "with migration directories / SQL schemas whose replay fails at every statement position or not at all. A non-empty dev database must make the command exit non-zero saying it is not clean and must be byte-for-byte unchanged in the independent dump (sqlite_master incl. views/triggers/internal tables, rows, rowids); "
+   "with migration directories / SQL schemas (tables only, views and triggers next to tables, views only) whose replay fails at every statement position or not at all. A non-empty dev database must make the command exit non-zero saying it is not clean and must be byte-for-byte unchanged in the independent dump (sqlite_master incl. views/triggers/internal tables, rows, rowids); "
    "an empty one must be handed back with the identical (empty) dump on success and on failure; the migration directory's files (SHA-256) are unchanged except that migrate diff may add one file and rewrite atlas.sum.",
    "SQLite only. The in-memory dev database cannot be inspected afterwards (only the directory invariant is checked for it).",
    "4/C14"),
  "C18": ("exploration",
    "rapid PBT over migration histories authored by the real `migrate diff` and by hand, linted by the real CLI on a real SQLite dev database; oracle = reference model tagging each file destructive/additive (iff, with code, object and position)",
    "Histories of 2-5 files (1-3 evolution steps each, over a small table model) are materialised as migration directories: each file either through `atlas migrate diff` (Atlas' own SQL including its new_<table> rebuild procedure) or as hand-written equivalent SQL "
-   "(DROP TABLE, ALTER TABLE DROP COLUMN, manual rebuilds that omit or keep columns, scratch tables/columns created and dropped in the same file, VIRTUAL generated columns). `atlas migrate lint --latest N --format json` is run for every window N. "
+   "(DROP TABLE, ALTER TABLE DROP COLUMN, manual rebuilds that omit or keep columns, scratch tables/columns created and dropped in the same file, a pre-existing column or table dropped and re-added / re-created under the same name in the same file, VIRTUAL generated columns). `atlas migrate lint --latest N --format json` is run for every window N. "
    "For each file in the window the multiset of DS1xx diagnostics (code, object) must equal the model's: a table or non-virtual column that existed before the file and is gone after it, and nothing else; each Pos must fall inside a statement of the drop/rebuild of that table; exit status is non-zero iff the window holds a destructive file.",
    "One step per table per file keeps 'existed before the file' unambiguous. Only the destructive analyzer's codes (DS1xx) are judged; other analyzers' diagnostics are ignored. SQLite only.",
    "4/C18"),
@@ -149,7 +149,7 @@ CLAIMED = {
    "4/C07"),
  "C20": ("exploration",
    "rapid PBT with repetition, multi-process and concurrent execution under the Go race detector (byte-identity oracle) and a permutation metamorphic relation (statement multiset + equal resulting catalogs on a real SQLite engine)",
-   "For MySQL/PostgreSQL/SQLite schemas with two independent FK chains, enums and all index/check kinds, the plans (create/modify/drop: Cmd and reverse statements), DefaultFormatter files, the MemDir sum file and MarshalHCL bytes are computed 21 times in one process, in 3 fresh child processes, "
+   "For MySQL/PostgreSQL/SQLite schemas with two independent FK chains, a join table with three parents that sorts before them, enums and all index/check kinds, the plans (create/modify/drop: Cmd and reverse statements), DefaultFormatter files, the MemDir sum file and MarshalHCL bytes are computed 21 times in one process, in 3 fresh child processes, "
    "and concurrently (the case 4x plus 4 unrelated cases in goroutines) in a test binary built with -race; all results must be byte-identical and the race detector silent. The real CLI's `schema inspect` (HCL and SQL), `schema diff` and `migrate hash` are run 5 times each in fresh processes. "
    "Permutation: tables/enum types in another order (all dialects) and the inspected HCL's top-level blocks shuffled and spread over 1-3 files (SQLite; both variants planned and applied on a real engine) must give the same multiset of statements and equal catalogs.",
    "The check owns no scheduler: races that need an interleaving the Go scheduler does not produce in these runs are not excluded. Only top-level declaration order is permuted (column order inside a table is semantic).",
